@@ -466,3 +466,58 @@ def rand_chart(rng, nprop=None, content=0.5, faults=0.0, only_in=False, pseudo=T
 
 def rand_events(rng, n=None):
     return [rng.choice(EVENTS) for _ in range(n if n is not None else rng.randint(0, 5))]
+
+
+# ------------------------------------------------------------------ data declared below the root (early vs late binding)
+def _ren_i(e, old, new):
+    if e == 'bad' or e[0] == 'n':
+        return e
+    if e[0] == 'v':
+        return ('v', new) if e[1] == old else e
+    return (e[0], _ren_i(e[1], old, new), _ren_i(e[2], old, new))
+
+
+def _ren_b(e, old, new):
+    if isinstance(e, str) or e[0] == 'in':
+        return e
+    if e[0] == '<':
+        return ('<', _ren_i(e[1], old, new), _ren_i(e[2], old, new))
+    if e[0] == '!':
+        return ('!', _ren_b(e[1], old, new))
+    return (e[0], _ren_b(e[1], old, new), _ren_b(e[2], old, new))
+
+
+def _ren_item(x, old, new):
+    k = x[0]
+    if k == 'elseif':
+        return ('elseif', _ren_b(x[1], old, new))
+    if k == 'log':
+        return ('log', x[1], _ren_i(x[2], old, new))
+    if k == 'assign':
+        return ('assign', x[1], new if x[2] == old else x[2], _ren_i(x[3], old, new))
+    if k == 'if':
+        return ('if', x[1], _ren_b(x[2], old, new), [_ren_item(y, old, new) for y in x[3]])
+    return x
+
+
+def nest_data(tree, rng):
+    """moves the uses of one variable inside the sub-tree of a non-root state h to a NEW variable declared in h, whose
+    initial value is computed from the root's variable: with early binding it is evaluated when the document is loaded,
+    with late binding when h is entered for the first time -- the two bindings become observably different.
+    The new variable is only used inside h's sub-tree, i.e. after it has been initialised under either binding."""
+    vs = all_vars(tree)
+    homes = [n for n in walk(tree) if n is not tree and n['kind'] in ('state', 'parallel')]
+    if not vs or not homes:
+        return False
+    v = rng.choice(vs)
+    h = rng.choice(homes)
+    new = max(vs) + 1
+    for n in walk(h):
+        n['onentry'] = [[_ren_item(i, v, new) for i in b] for b in n.get('onentry', [])]
+        n['onexit'] = [[_ren_item(i, v, new) for i in b] for b in n.get('onexit', [])]
+        for t in n.get('trans', []):
+            if t['cond'] is not None:
+                t['cond'] = _ren_b(t['cond'], v, new)
+            t['body'] = [_ren_item(i, v, new) for i in t['body']]
+    h['data'] = list(h.get('data', [])) + [(new, ('+', ('v', v), ('n', 1)))]
+    return True
